@@ -1,11 +1,13 @@
 /-
 C07 — a JSON snapshot restores a behaviourally identical book.
-Property theorems only. The JSON text is opaque (`save` = the serialised fields); `load` is the
-rebuild loop of `TryFrom<OrderBookState>`.
+Property theorems only. `save` = the serialised fields, `load` = the rebuild loop of
+`TryFrom<OrderBookState>`; the JSON text itself is `Model/Json.lean` (both writers, the reader, the
+field encoding), compared character by character with what `serde_json` writes on every run.
 -/
 import Bourse.Model.Ops
 import Bourse.Lemmas.Reach
 import Bourse.Lemmas.NoOverflow
+import Bourse.Lemmas.JsonParse
 
 namespace Bourse.Props.C07
 open Bourse
@@ -83,5 +85,129 @@ theorem reload_indistinguishable_valid (t0 tick : Nat) (trading : Bool) (ops : L
     (((Book.new t0 tick trading).run ops).reload.run cont).observe n =
       (((Book.new t0 tick trading).run ops).run cont).observe n :=
   reload_reachable_indistinguishable t0 tick trading h.tick_pos ops h.ops_valid h.noFault cont n
+
+/-! ### The JSON text: a snapshot cut short at any byte is rejected -/
+
+open Bourse.Json in
+/-- **Every object either writer produces, cut short anywhere, is rejected by the reader.** For any
+JSON object whose strings contain no quote, and any strict prefix `p` (including the empty text) of
+its compact or pretty rendering, `Json.parse p = none`: the reader accepts only balanced texts
+(`parse_balanced`), and every non-empty strict prefix of a written object is scanned to bracket
+depth ≥ 1 (`wrap_prefix_depth`). -/
+theorem truncated_object_rejected (l : List (List Char × J)) (hwf : (J.obj l).WF) (pretty : Bool)
+    (p : List Char)
+    (hp : p <+: (if pretty then renderPretty 0 (.obj l) else renderCompact (.obj l)))
+    (hne : p ≠ (if pretty then renderPretty 0 (.obj l) else renderCompact (.obj l))) :
+    parse p = none := by
+  have hm : WFMembers l := by simpa [J.WF] using hwf
+  cases pretty with
+  | false =>
+    simp only [Bool.false_eq_true, if_false] at hp hne
+    rw [renderCompact] at hp hne
+    exact prefix_rejected_of_good (renderMembersC_good l hm) p hp hne
+  | true =>
+    simp only [if_true] at hp hne
+    cases l with
+    | nil =>
+      rw [renderPretty] at hp hne
+      have h0 : lit "{}" = '{' :: ([] : List Char) ++ ['}'] := by decide
+      rw [h0] at hp hne
+      exact prefix_rejected_of_good good_nil p hp hne
+    | cons x r =>
+      rw [renderPretty] at hp hne
+      have hin : Good ('\n' :: renderMembersP (0 + 1) (x :: r) ++ '\n' :: indent 0) :=
+        good_cons (by decide) (good_append (renderMembersP_good (0 + 1) (x :: r) hm)
+          (good_cons (by decide) (indent_good 0)))
+      have heq : '{' :: '\n' :: renderMembersP (0 + 1) (x :: r) ++ '\n' :: indent 0 ++ ['}'] =
+          '{' :: ('\n' :: renderMembersP (0 + 1) (x :: r) ++ '\n' :: indent 0) ++ ['}'] := by
+        simp [List.append_assoc]
+      rw [heq] at hp hne
+      exact prefix_rejected_of_good hin p hp hne
+
+open Bourse.Json in
+theorem sideJ_wf (sd : Side) : (sideJ sd).WF := by cases sd <;> simp [sideJ, J.WF] <;> decide
+open Bourse.Json in
+theorem statusJ_wf (st : Status) : (statusJ st).WF := by cases st <;> simp [statusJ, J.WF] <;> decide
+
+open Bourse.Json in
+theorem entryJ_wf (e : Entry) : (entryJ e).WF := by
+  have h1 := sideJ_wf e.order.side
+  have h2 := statusJ_wf e.order.status
+  have h3 := sideJ_wf e.key.side
+  simp only [entryJ, orderJ, keyJ, J.WF, WFMembers, WFList, and_true, h1, h2, h3, true_and]
+  decide
+
+open Bourse.Json in
+theorem tradeJ_wf (t : Trade) : (tradeJ t).WF := by
+  have h1 := sideJ_wf t.side
+  simp only [tradeJ, J.WF, WFMembers, and_true, h1, true_and]
+  decide
+
+open Bourse.Json in
+theorem wfList_map {α} (f : α → J) (hf : ∀ a, (f a).WF) (l : List α) : WFList (l.map f) := by
+  induction l with
+  | nil => simp [WFList]
+  | cons a l ih => simp only [List.map_cons, WFList]; exact ⟨hf a, ih⟩
+
+open Bourse.Json in
+theorem snapJ_wf (s : Snap) : (snapJ s).WF := by
+  have h1 := wfList_map entryJ entryJ_wf s.orders
+  have h2 := wfList_map tradeJ tradeJ_wf s.trades
+  simp only [snapJ, J.WF, WFMembers, and_true, h1, h2, true_and]
+  decide
+
+open Bourse.Json in
+theorem marketJ_wf (books : List Snap) : (marketJ books).WF := by
+  have h1 := wfList_map snapJ snapJ_wf books
+  simp only [marketJ, J.WF, WFMembers, and_true, h1]
+  decide
+
+open Bourse.Json in
+/-- **C07, last sentence, for a book.** The text `save_json` writes for ANY book state (compact or
+pretty), cut short at ANY offset `k` — the empty file included — is not loaded: the reader returns
+an error (`none`), it neither yields a different book nor diverges (the reader is a total function). -/
+theorem truncated_snapshot_rejected (b : Book) (pretty : Bool) (k : Nat)
+    (hk : k < (saveText b pretty).length) : loadText ((saveText b pretty).take k) = none := by
+  have hrej : parse ((saveText b pretty).take k) = none := by
+    unfold saveText at hk ⊢
+    have hwf := snapJ_wf b.save
+    have hobj : ∃ l, snapJ b.save = .obj l := ⟨_, rfl⟩
+    obtain ⟨l, hl⟩ := hobj
+    rw [hl] at hwf hk ⊢
+    apply truncated_object_rejected l hwf pretty
+    · cases pretty <;> exact List.take_prefix _ _
+    · intro heq
+      have := congrArg List.length heq
+      rw [List.length_take] at this
+      cases pretty <;> simp only [Bool.false_eq_true, if_false, if_true] at this hk <;> omega
+  simp [loadText, hrej]
+
+open Bourse.Json in
+/-- **The same for a multi-asset market file** (`{"order_books":[…]}`), any number of books. -/
+theorem truncated_market_snapshot_rejected (books : List Book) (pretty : Bool) (k : Nat)
+    (hk : k < (if pretty then renderPretty 0 (marketJ (books.map Book.save))
+               else renderCompact (marketJ (books.map Book.save))).length) :
+    parse ((if pretty then renderPretty 0 (marketJ (books.map Book.save))
+            else renderCompact (marketJ (books.map Book.save))).take k) = none := by
+  have hwf := marketJ_wf (books.map Book.save)
+  have hobj : ∃ l, marketJ (books.map Book.save) = .obj l := ⟨_, rfl⟩
+  obtain ⟨l, hl⟩ := hobj
+  rw [hl] at hwf hk ⊢
+  apply truncated_object_rejected l hwf pretty
+  · exact List.take_prefix _ _
+  · intro heq
+    have := congrArg List.length heq
+    rw [List.length_take] at this
+    omega
+
+open Bourse.Json in
+/-- Non-vacuity / concrete instance (kernel evaluation): the full texts of a book with a partially
+filled, a filled and an unplaced order load back to exactly that book, compact and pretty, and the
+compact text is the one `serde_json` writes (checked against the real crate on every run). -/
+theorem snapshot_text_concrete :
+    let b := (Book.new 0 1 true).run [.cap .ask 5 1 (some 10), .time 1, .cap .bid 3 3 (some 10), .create .bid 2 6 (some 7)]
+    loadText (saveText b false) = some b ∧ loadText (saveText b true) = some b ∧
+    (saveText b false).length = 663 := by
+  decide +kernel
 
 end Bourse.Props.C07
